@@ -300,6 +300,10 @@ def parse_statement(lexer, toplevel=False):
                 if not lexer.peekn(1, "]", "interpunction"):
                     lexer.match(",", "interpunction")
             lexer.match("]", "interpunction")
+            if not identifiers:
+                raise CklSyntaxError(
+                    "Expected identifier but got ]", lexer.getPos()
+                )
         else:
             token = lexer.next()
             check_expected_identifier(token)
